@@ -11,7 +11,7 @@ PYTHONPATH.  Line protocol (one request per line on stdin, one answer line on st
   O <form>            oracle only: truth-table classification + verdict of prove_tautology
 
 Syntax (prefix, space separated):
-  form    b | t | v<n> | i F F | n F | a F F | o F F | e F F
+  form    b | t | v<n> | c<n> (metavariable with an e_fresh constraint) | i F F | n F | a F F | o F F | e F F
   cf      B<0|1> | V<0|1>:<id> | O<0|1> CF CF | A<0|1> CF CF
   clauses L[1,-2][3]   (L alone = empty list, L[] = one empty clause)
 """
@@ -21,7 +21,7 @@ import itertools
 
 sys.setrecursionlimit(20000)
 
-from proof_generation.pattern import Implies, Instantiate, MetaVar, Mu, SVar, _and, _or, bot, equiv, neg, top  # noqa: E402
+from proof_generation.pattern import EVar, Implies, Instantiate, MetaVar, Mu, SVar, _and, _or, bot, equiv, neg, top  # noqa: E402
 from proof_generation import tautology as T  # noqa: E402
 from proof_generation.interpreter import ExecutionPhase  # noqa: E402
 from proof_generation.stateful_interpreter import StatefulInterpreter  # noqa: E402
@@ -49,6 +49,8 @@ def parse_form(toks):
         return top()
     if t[0] == 'v':
         return MetaVar(int(t[1:]))
+    if t[0] == 'c':   # constrained metavariable (same id space as v<n>)
+        return MetaVar(int(t[1:]), e_fresh=(EVar(1),))
     if t == 'n':
         return neg(parse_form(toks))
     a = parse_form(toks)
@@ -94,7 +96,7 @@ def show_core(p):
     if isinstance(p, Mu) and p == Mu(0, SVar(0)):
         return 'b'
     if isinstance(p, MetaVar):
-        return f'v{p.name}'
+        return f'v{p.name}' if p == MetaVar(p.name) else f'c{p.name}'
     if isinstance(p, Implies):
         return f'i {show_core(p.left)} {show_core(p.right)}'
     raise ValueError('not propositional: ' + str(p))
@@ -249,7 +251,7 @@ def ev(toks, v):
         return False
     if t == 't':
         return True
-    if t[0] == 'v':
+    if t[0] in 'vc':
         return v[int(t[1:])]
     if t == 'n':
         return not ev(toks, v)
@@ -266,7 +268,7 @@ def ev(toks, v):
 
 def classify(arg):
     toks = arg.split()
-    vs = sorted({int(t[1:]) for t in toks if t[0] == 'v'})
+    vs = sorted({int(t[1:]) for t in toks if t[0] in 'vc' and t[1:].isdigit()})
     vals = set()
     for bits in itertools.product([False, True], repeat=len(vs)):
         v = dict(zip(vs, bits))
